@@ -24,7 +24,8 @@ Definition is_host (h : comp) : bool :=
 Definition dial_shape (listen : list maddr) (a : maddr) : shape_verdict :=
   match last a (Other 0) with
   | P2p q =>
-      if existsb (maddr_eqb a) listen then SvRefuse RET_SELF'
+      (* the node's own listen address, literally or - since fix F-C10a - under another peer id *)
+      if existsb (maddr_eqb a) listen || existsb (maddr_eqb (strip_p2p a)) listen then SvRefuse RET_SELF'
       else
         match a with
         | h :: rest =>
